@@ -960,10 +960,10 @@ def scalars(t):
     if t in D.INT_TYPES:
         return [['i', t, v] for v in D.int_lattice(t)]
     if t == 'real32':
-        return [D.fspec(D.float32_round(f), 'real32') for f in REAL32] + \
+        return [D.fspec(D.float32_round(f), 'real32') for f in REAL32 + D.DECIMAL_REALS32] + \
             [D.fspec(1e16, 'real32'), D.fspec(0.1, 'real32')]     # held as doubles by Real32
     if t == 'real64':
-        return [D.fspec(f, 'real64') for f in REAL64]
+        return [D.fspec(f, 'real64') for f in REAL64 + D.DECIMAL_REALS]
     if t == 'reference':
         return REFS
     raise ValueError(t)
@@ -1470,6 +1470,74 @@ def literal_cases(tier):
 
 
 # ------------------------------------------------------------------------------------------
+# sub-check 'session': ONE compiler session in which a qualifier type is declared, used, declared
+# again differently and used again (everything through tomof() text). What the compiler remembers
+# from the first declaration must not leak into objects compiled after the second one.
+
+SESSION_DECLS = [
+    dict(type='string', is_array=False, value=['s', 'a'], flavors={}),
+    dict(type='string', is_array=True, value=['a', [['s', 'a'], ['s', 'b']]], flavors={}),
+    dict(type='uint32', is_array=False, value=['i', 'uint32', 7], flavors={}),
+    dict(type='uint32', is_array=True, value=['a', [['i', 'uint32', 7]]], flavors={}),
+    dict(type='boolean', is_array=False, value=['b', True], flavors={}),
+    dict(type='string', is_array=False, value=['s', 'a'],
+         flavors=dict(overridable=False, tosubclass=False, translatable=True)),
+    dict(type='real64', is_array=False, value=D.fspec(1.5, 'real64'), flavors={}),
+    dict(type='datetime', is_array=False, value=['dt', D.DATETIMES[0]], flavors={}),
+]
+SESSION_SITES = ['class', 'property', 'method', 'parameter']
+
+
+def session_cases():
+    for i, a in enumerate(SESSION_DECLS):
+        for j, b in enumerate(SESSION_DECLS):
+            if i != j:
+                for site in SESSION_SITES:
+                    yield dict(check='session', first=i, second=j, site=site)
+
+
+def _session_objects(d, clsname, site):
+    kw = dict(d['flavors'])
+    qd = ['qdecl', 'Tag', d['type'], dict(kw, is_array=d['is_array'], scopes={'ANY': True})]
+    q = ['qual', 'Tag', d['value'], dict(kw, type=d['type'])]
+    cq = [q] if site == 'class' else []
+    props = [['prop', 'P', ['n'], {'type': 'string', 'qualifiers': [q] if site == 'property' else []}]]
+    param = ['param', 'A', 'string', {'qualifiers': [q] if site == 'parameter' else []}]
+    meths = [['meth', 'M', 'uint32', [param], {'qualifiers': [q] if site == 'method' else []}]]
+    return D.build(qd), D.build(['class', clsname, props, meths, {'qualifiers': cq}])
+
+
+def session_check(acc, case):
+    comp, h = reset()
+    steps = []
+    problem = None
+    for k, (idx, clsname) in enumerate(((case['first'], 'S_First'), (case['second'], 'S_Second'))):
+        qd, cls = _session_objects(SESSION_DECLS[idx], clsname, case['site'])
+        for label, obj, store, key in (('declaration', qd, 'qualifiers', 'Tag'),
+                                       ('class', cls, 'classes', clsname)):
+            text = obj.tomof(80)
+            steps.append(text)
+            err = compile_text(text)
+            if err:
+                problem = ('%s-%d:%s' % (label, k + 1, err), 'compiles', text[:300])
+                break
+            got = getattr(h, store).get(NS, {}).get(key)
+            if got is None:
+                problem = ('%s-%d:object-missing' % (label, k + 1), key, None)
+                break
+            dd = diff(project(obj), project(got))
+            if dd:
+                problem = ('%s-%d:differs:%s' % (label, k + 1, describe(dd)), dd[1], dd[2])
+                break
+        if problem:
+            break
+    acc.case(('session', case['first'], case['second'], case['site']), nontrivial=True,
+             outcome='session:' + ('ok' if problem is None else 'violation'), calls=4)
+    if problem:
+        what, exp, obs = problem
+        acc.violation(dict(check='session', what=what, site=case['site']), dict(case), exp,
+                      '%r after compiling in one session: %s' % (obs, ' | '.join(t.replace('\n', ' ')[:120] for t in steps)))
+
 
 NPARTS = {'quick': {'objects': 24, 'strings': 24, 'literal': 16},
           'thorough': {'objects': 32, 'strings': 32, 'literal': 16}}
@@ -1485,6 +1553,7 @@ def plan(tier, seed):
         for atom in SPECIAL_ATOMS:
             for g in fold_groups(tier):
                 shards.append(dict(check='fold', ctx=ctx, atom=atom, maxlines=g))
+    shards += [dict(check='session', part=i, of=4) for i in range(4)]
     return shards
 
 
@@ -1496,6 +1565,11 @@ def run_shard(shard, tier):
         for spec, m, (i, j, blanks) in fold_cases(shard):
             check_case(acc, spec, m, 'fold',
                        shrink=fold_shrinker(shard['ctx'], shard['atom'], i, j, blanks))
+        return acc
+    if name == 'session':
+        for i, case in enumerate(session_cases()):
+            if i % shard['of'] == shard['part']:
+                session_check(acc, case)
         return acc
     if name == 'literal':
         if shard['part'] == 0:
@@ -1515,7 +1589,9 @@ def run_shard(shard, tier):
 def replay(case, tier):
     warnings.simplefilter('ignore')
     acc = Acc()
-    if case.get('check') == 'literal':
+    if case.get('check') == 'session':
+        session_check(acc, dict(case))
+    elif case.get('check') == 'literal':
         literal_check(acc, dict(case), minimize=False)
     else:
         check_case(acc, case['spec'], case['maxline'], 'replay', minimize=False)
